@@ -288,6 +288,11 @@ class Interp(Exec):
         ordinal = self.loop_ordinal_of(fi, s)
         c = self.reg.contracts.get(fi.fid)
         invs = c.loops.get(ordinal) if c else None
+        if c is not None and c.loops and fi.fid.split("@")[0] == self.fid.split("@")[0] and self.loop_drift(fi, c):
+            # the loop structure of the function no longer matches the contract (code was restructured): every invariant clause of the
+            # contract is a *candidate* at every loop; clauses that cannot be evaluated here or fail entry / preservation are dropped
+            # (Houdini-style, verify.run iterates to a fixpoint).  Verdicts obtained this way need native confirmation.
+            invs = self.drift_candidates(c, ordinal)
         # concrete iteration space -> unroll
         if target is not None and isinstance(it, VTuple):
             for x in it.items:
@@ -322,6 +327,15 @@ class Interp(Exec):
             self.st.env["loop_n"] = VInt(lst.n)
             self.st.env["loop_list"] = it
             self.touch(TInt, lst.n)
+        if getattr(self, "drift", False):
+            usable = []
+            for inv in invs:
+                try:
+                    self.eval_clause(inv)
+                    usable.append(inv)
+                except (Unsupported, PyRaise, KeyError, AttributeError) as e:
+                    self.dropped_invariants.add((ordinal, inv))
+            invs = usable
         for j, inv in enumerate(invs):
             self.prove_clause("loop%d-entry/%d" % (ordinal, j), inv, kind="loop-entry")
         # 2. havoc what the body modifies, assume invariant
@@ -364,6 +378,37 @@ class Interp(Exec):
             if lst is not None:
                 self.assume(i == lst.n)
             self.exec_block(s.orelse)
+
+    def loop_drift(self, fi, c):
+        if getattr(self, "_drift_cache", None) is None:
+            order = []
+
+            def visit(n):
+                for ch in ast.iter_child_nodes(n):
+                    if isinstance(ch, (ast.For, ast.While, ast.ListComp, ast.SetComp, ast.DictComp, ast.GeneratorExp)):
+                        order.append(ch)
+                    if isinstance(ch, (ast.FunctionDef, ast.Lambda)) and ch is not fi.node:
+                        continue
+                    visit(ch)
+            visit(fi.node)
+            stmts = {i + 1 for i, n in enumerate(order) if isinstance(n, (ast.For, ast.While))}
+            declared = set(c.loops)
+            comp_declared = {o for o in declared if o not in stmts}
+            # drift: an invariant is declared for an ordinal that is not (any more) a loop or comprehension of the function, or a
+            # for / while statement has no invariant although the contract declares invariants for others
+            self._drift_cache = bool({o for o in declared if o > len(order)}) or bool(stmts - declared - set(getattr(c, "unroll", None) or ()))
+            self.drift = self._drift_cache
+            if self.drift and not hasattr(self, "dropped_invariants"):
+                self.dropped_invariants = set()
+        return self._drift_cache
+
+    def drift_candidates(self, c, ordinal):
+        out = []
+        for o in sorted(c.loops):
+            for cl in c.loops[o]:
+                if cl not in out and (ordinal, cl) not in self.dropped_invariants:
+                    out.append(cl)
+        return out
 
     def loop_ordinal_of(self, fi, node):
         """1-based pre-order ordinal of a loop statement (For/While and side-effecting comprehensions) in its function."""
